@@ -31,11 +31,11 @@ func init() {
 			"non-trivial (two-sided) = the consumers alternated at least twice; distinct = hash of (scenario, input, call scripts, schedule).",
 		Assumptions: []string{
 			"how far ahead a combinator may pull from its source is C12's question and is not part of this oracle",
-			"a consumer calls HasNext at least once before each Next (the statement only promises Next after a true HasNext), except for the final Next on an exhausted iterator, which must panic",
+			"a consumer calls HasNext at least once before each Next that is expected to deliver (the statement only promises Next after a true HasNext); the final Next on an exhausted iterator must panic whether or not a HasNext observed the exhaustion first (both variants are drawn)",
 		},
 		Real:     []string{"fp.Iterator and its methods", "iterator package (Duplicate/Span/Partition and constructors/combinators)", "immutable/mutable map and set iterators", "seq/option/try Iterator"},
 		Stub:     []string{"Go scheduler between consumer calls and inside stalled source calls (seeded)", "source iterator (instrumented)", "consumers"},
-		Quick:    Budget{Runs: 500000, Wall: 45 * time.Second},
+		Quick:    Budget{Runs: 1200000, Wall: 45 * time.Second},
 		Thorough: Budget{Runs: 60000000, Wall: 25 * time.Minute},
 		Exec:     execC20,
 	})
@@ -300,6 +300,9 @@ func (s *c20src) iter() fp.Iterator[int] {
 type c20script struct {
 	demand int   // how many elements the consumer wants
 	has    []int // HasNext calls before each Next (>=1)
+	// blindEnd: once the reference says the iterator is exhausted the consumer calls Next straight away, without a
+	// HasNext that could observe the exhaustion first (a caller that knows the size and pulls once too often)
+	blindEnd bool
 }
 
 func c20Script(r *sim.Run, maxDemand int) c20script {
@@ -312,6 +315,7 @@ func c20Script(r *sim.Run, maxDemand int) c20script {
 			return 0
 		}))
 	}
+	s.blindEnd = r.Bool(1, 3, "blindEnd")
 	return s
 }
 
@@ -344,7 +348,12 @@ func (c *c20side) consume(r *sim.Run, t *sim.Task, onCall func()) {
 			return
 		}
 		more := i < len(c.ref)
-		for h := 0; h < c.sc.has[i]; h++ {
+		nHas := c.sc.has[i]
+		if !more && c.sc.blindEnd {
+			nHas = 0
+			r.Probe("next-on-exhausted-without-hasnext")
+		}
+		for h := 0; h < nHas; h++ {
 			var b bool
 			if p := call(func() { b = c.it.HasNext() }); p != nil {
 				r.Violate("hasnext-panic", "%s: HasNext panicked at position %d: %v", c.name, i, p)
@@ -717,7 +726,12 @@ func c20Unordered(r *sim.Run) {
 		}
 		for i := 0; i < sc.demand; i++ {
 			more := i < len(ref)
-			for hh := 0; hh < sc.has[i]; hh++ {
+			nHas := sc.has[i]
+			if !more && sc.blindEnd {
+				nHas = 0
+				r.Probe("next-on-exhausted-without-hasnext")
+			}
+			for hh := 0; hh < nHas; hh++ {
 				var b bool
 				if p := call(func() { b = it.HasNext() }); p != nil {
 					r.Violate("hasnext-panic", "%s: HasNext panicked: %v", desc, p)
